@@ -12,6 +12,7 @@ inductive Ev where
   | probe (tag : String) (ok : Bool) (detail : String)
   | oldAddr (k : Nat) (free : Bool)
   | stopCall | stopRet (ms : Nat) | cancel
+  | stillInFlight (n : Nat)      -- requests still in flight 20 ms after Stop() returned
   | req (durMs : Nat) (outcome : String) (ms : Nat)
   | ret (cls : String) (state : String)
   | released (addr : Nat) (free : Bool)
@@ -73,14 +74,27 @@ def storedCfg (t : List Ev) : Option Nat :=
 
 def holdsC13 (i : Info) (t : List Ev) : Bool :=
   !i.hung &&
+  -- every Reload() on a running server fetches the callback's configuration, also when it has to wait for another
+  -- reload: in a history without stops, cancellations and requests in which every reload returned with the state
+  -- Running, there is one callback per Reload() call (plus the one of the boot)
+  ((t.any fun e => match e with | .stopCall | .cancel | .ret _ _ | .req _ _ _ => true | _ => false)
+    || !(t.all fun e => match e with | .reloadRet _ st => st == "Running" | _ => true)
+    || (t.filter fun e => match e with | .reloadCall _ => true | _ => false).length
+         != (t.filter fun e => match e with | .reloadRet _ _ => true | _ => false).length
+    || (t.filter fun e => match e with | .cb _ _ => true | _ => false).length
+         == 1 + (t.filter fun e => match e with | .reloadCall _ => true | _ => false).length) &&
   (List.range (t.filter fun e => match e with | .reloadCall _ => true | _ => false).length).all fun k =>
     match window t k with
     | none => true
     | some (pre, w, st) =>
-      let disturbed := (pre ++ w).any fun e => match e with
+      let disturbed := ((pre ++ w).any fun e => match e with
         | .stopCall | .cancel | .ret _ _ => true
         | .req _ _ _ => true          -- a drain may turn the restart into an error: C14
-        | _ => false
+        | _ => false)
+        -- overlapping Reload() calls: the per-reload clauses describe one reload at a time
+        || (w.any fun e => match e with | .reloadCall _ | .reloadRet _ _ => true | _ => false)
+        || (pre.filter fun e => match e with | .reloadCall _ => true | _ => false).length
+             != (pre.filter fun e => match e with | .reloadRet _ _ => true | _ => false).length
       if disturbed || stateBefore pre != "Running" then true else
       match w.findSome? (fun e => match e with | .cb _ r => some r | _ => none) with
       | none => false
@@ -130,6 +144,9 @@ def holdsC14 (i : Info) (t : List Ev) : Bool :=
       ((t.any fun e => match e with | .ret "drainTimeout" "Error" => true | _ => false)
        && (t.all fun e => match e with | .stopRet ms => ms ≤ drain + 400 | _ => true)))
   && (!long || !viaReload || (t.any fun e => match e with | .reloadRet _ "Error" => true | .ret "drainTimeout" _ => true | _ => false))
+  -- Stop() returns once the in-flight requests have finished, also when a reload is what is draining the server: with
+  -- requests that all finish within the drain timeout none is still in flight after Stop() has returned
+  && (!short || (t.all fun e => match e with | .stillInFlight n => n == 0 | _ => true))
 
 /-! ## C08 (httpserver): the observed state stream -/
 def typicalEdges : List (String × String) :=
